@@ -8,25 +8,38 @@ import Driver.C17
 import Driver.C08
 import Driver.C03
 import Driver.Zone
+import Driver.Tzdb
 namespace Driver
 
 def handlers : List Handler := [handleC01, handleC07, handleC10, handleC09, handleC04, handleC05, handleC17, handleC08, handleC03, handleZone]
 
-def dispatch (line : String) : String :=
+def dispatch (tbl : ZoneTable) (names : Std.HashMap String Unit) (line : String) : String :=
   let toks := (line.trimAscii.toString.splitOn " ").filter (· ≠ "")
   match handlers.findSome? (fun h => h toks) with
   | some out => out
-  | none => "?bad-op"
+  | none =>
+    match handleTzdb tbl names toks with
+    | some out => out
+    | none => "?bad-op"
 
-partial def loop (hin : IO.FS.Stream) (hout : IO.FS.Stream) : IO Unit := do
+partial def loop (tbl : ZoneTable) (names : Std.HashMap String Unit) (hin : IO.FS.Stream) (hout : IO.FS.Stream) : IO Unit := do
   let line ← hin.getLine
   if line.isEmpty then return ()
-  hout.putStrLn (dispatch line)
-  loop hin hout
+  hout.putStrLn (dispatch tbl names line)
+  loop tbl names hin hout
 
 end Driver
 
 def main : IO Unit := do
   let hin ← IO.getStdin
   let hout ← IO.getStdout
-  Driver.loop hin hout
+  -- the zone table dumped by `harness zones` (C15), if any
+  let tbl ← (do
+    match (← IO.getEnv "TEMPORAL_ZONES") with
+    | some p => if (← System.FilePath.pathExists p) then Driver.loadZones p else pure {}
+    | none => pure {})
+  -- the IANA names: every TZif file of the zoneinfo tree except the installation's own artefacts
+  let notZones := ["localtime", "posixrules", "Factory"]
+  let names : Std.HashMap String Unit :=
+    tbl.fold (fun acc k _ => if notZones.contains k then acc else acc.insert (Driver.lower k) ()) {}
+  Driver.loop tbl names hin hout
